@@ -192,7 +192,7 @@ def validate(trace_module, consts, events, invariants, shaped, timeout=900):
             f.write(json.dumps(e) + "\n")
     env = {"TRACE": tp}
     r = core.run_tlc(mod, cfg, workers=1, timeout=timeout, env=env, coverage=False, heap="4g", deque=True, cwd=d,
-                     xss="512m", continue_=not shaped)
+                     xss="512m")
     reached = total = None
     m = re.search(r'TRACE-REACHED", (\d+), "OF", (\d+)', r.out)
     if m:
@@ -242,13 +242,22 @@ def filt_class(opt):
     return "+".join("bcj" if t != "delta" else "delta" for t in ts)
 
 
+def xz_sig(s):
+    """Identifies the failing input class of an XZ writer run (subset-matched by known findings)."""
+    opt = s["opt"]
+    ts = [f["t"] for f in opt.get("filters", [])]
+    nwrites = sum(1 for c in s["calls"] if c["op"] == "write")
+    total = sum(c.get("n", 0) for c in s["calls"] if c["op"] == "write")
+    return {"family": "xz_write", "empty": total == 0, "limit": "set" if opt.get("limit") else "none",
+            "multi_write": nwrites > 1, "bcj": any(t != "delta" for t in ts), "delta": "delta" in ts}
+
+
 def judge_xz_write(j, s, r, predicted=None, source="tlc-scn"):
     """Property-level oracles of one xz_write run. predicted: the abstract stream of the model (block sizes)."""
     opt = s["opt"]
     nwrites = sum(1 for c in s["calls"] if c["op"] == "write")
     total = sum(c.get("n", 0) for c in s["calls"] if c["op"] == "write")
-    base = {"family": "xz_write", "check": opt.get("check"), "filters": filt_class(opt), "empty": total == 0,
-            "limit": "set" if opt.get("limit") else "none", "multi_write": nwrites > 1}
+    base = xz_sig(s)
     rep = {"scenario": strip(s), "source": source}
     j.nruns += 1
     if r["outcome"] != "ok":
@@ -258,7 +267,7 @@ def judge_xz_write(j, s, r, predicted=None, source="tlc-scn"):
         j.violation("C02", f"XZWriter call failed without any fault: {[c for c in r['calls'] if not c['ok']]}", dict(base, outcome="call_err"), rep)
         return
     us = [x["usize"] for x in r["recs"] if x["k"] == "Data"]
-    j.classes.add(("xz_write", base["check"], base["filters"], base["limit"], "empty" if total == 0 else ("1w" if nwrites == 1 else "nw"), len(us)))
+    j.classes.add(("xz_write", opt.get("check"), filt_class(opt), base["limit"], "empty" if total == 0 else ("1w" if nwrites == 1 else "nw"), len(us)))
     rt = r["rt"]
     if not (rt["ok"] and rt["cmp"]["equal"]):
         j.violation("C02", f"XZ file written by the crate is not decoded back by XZReader: {rt['err'] or 'wrong bytes'} (got {rt['cmp']['len']} of {r['input_len']} bytes)",
@@ -419,8 +428,9 @@ def validate_xz_runs(ctx, j, runs, pool, what="xz_write"):
         index[s["id"]] = (s, r1)
         events.extend(xz_events(s, r1))
     invs = sorted(set(i for p in j.props for i in TRACE_INV.get(p, [])))
-    fp = pool.submit(validate, "Trace_XzContainer", trace_consts_xz(), events, invs, False)
-    fs = pool.submit(validate, "Trace_XzContainer", trace_consts_xz(), events, [], True)
+    trace_module, consts = "Trace_XzContainer", trace_consts_xz()
+    fp = pool.submit(validate, trace_module, consts, events, invs, False)
+    fs = pool.submit(validate, trace_module, consts, events, [], True)
     ok, reached, total, r, tv = fp.result()
     ctx.note_tlc(f"trace {what} (property level)", r)
     if not ok:
@@ -429,11 +439,7 @@ def validate_xz_runs(ctx, j, runs, pool, what="xz_write"):
     for (inv, rid) in tv:
         s, r1 = index[rid]
         bad_runs.add(rid)
-        opt = s["opt"]
-        total_in = sum(c.get("n", 0) for c in s["calls"] if c["op"] == "write")
-        nwrites = sum(1 for c in s["calls"] if c["op"] == "write")
-        sig = {"family": s["fam"], "check": opt.get("check"), "filters": filt_class(opt), "empty": total_in == 0,
-               "limit": "set" if opt.get("limit") else "none", "multi_write": nwrites > 1, "outcome": "trace:" + inv}
+        sig = dict(xz_sig(s), outcome="trace:" + inv)
         recs = [{k: v for k, v in x.items() if k in ("k", "hsize", "csize", "usize", "n", "recs", "backward", "why")} for x in r1["recs"]]
         for pid in INV_PROP[inv]:
             j.violation(pid, f"trace of the real writer rejected by the property-level spec Trace_XzContainer: invariant T{inv} "
@@ -442,16 +448,29 @@ def validate_xz_runs(ctx, j, runs, pool, what="xz_write"):
     ctx.cov["traces_validated_against_impl"] = ctx.cov.get("traces_validated_against_impl", 0) + len(runs) - len(bad_runs)
     ok2, reached2, total2, r2, _ = fs.result()
     ctx.note_tlc(f"trace {what} (implementation-shaped)", r2)
-    if ok2:
-        ctx.add("traces_explained_by_asbuilt_design", len(runs))
-    else:
-        nxt = events[reached2] if reached2 is not None and reached2 < len(events) else "?"
-        # which run
-        rid = "?"
-        for e in events[:(reached2 or 0) + 1]:
+    evs = events
+    unexplained = 0
+    for attempt in range(4):
+        if ok2:
+            break
+        # the run that could not be explained: report it as drift, drop it, validate the rest
+        rid, start = "?", 0
+        for i, e in enumerate(evs[:(reached2 or 0) + 1]):
             if e["ev"] == "Reset":
-                rid = e["id"]
-        ctx.note_drift(f"Trace_XzContainer (as-built constants {xz_variant()}) cannot explain run {rid} at event {reached2} of {total2}: next {json.dumps(nxt)[:300]}")
+                rid, start = e["id"], i
+        nxt = evs[reached2] if reached2 is not None and reached2 < len(evs) else "?"
+        ctx.note_drift(f"Trace_{what} (as-built constants) cannot explain run {rid} at its event {reached2 - start}: next {json.dumps(nxt)[:300]}")
+        unexplained += 1
+        end = start + 1
+        while end < len(evs) and evs[end]["ev"] != "Reset":
+            end += 1
+        evs = evs[:start] + evs[end:]
+        if not evs or attempt == 3:
+            break
+        ok2, reached2, total2, r2, _ = validate(trace_module, consts, evs, [], True)
+        ctx.note_tlc(f"trace {what} (implementation-shaped, retry)", r2)
+    if ok2:
+        ctx.add("traces_explained_by_asbuilt_design", len(runs) - unexplained)
     return bad_runs
 
 
